@@ -58,7 +58,7 @@ pub fn run(ctx: &mut Ctx) {
                 scenario::gen_conn_ep(&mut r, base_id + i as u64, kind, base, ep)
             })
             .collect();
-        let with_db = s % 2 == 0;
+        let with_db = s % 2 == 0 && !ctx.miri(); // loading the bundled database costs ~50 s under Miri
         let started = std::time::Instant::now();
         for which in WHICH {
             // run A
@@ -133,6 +133,13 @@ pub fn run(ctx: &mut Ctx) {
     huginn_net_tcp::verif_hooks::clock::clear();
 }
 
+/// thorough tier only: the flow tables are `ttl_cache` / `linked-hash-map` (unsafe code inside)
+fn sanitizers(ctx: &mut Ctx) {
+    if ctx.thorough() {
+        crate::rt::miri_stage(ctx, "", 3000);
+    }
+}
+
 pub fn spec() -> PropSpec {
     PropSpec {
         id: "C07",
@@ -144,6 +151,6 @@ pub fn spec() -> PropSpec {
             "parsing_time_ns and HashMap iteration order are excluded from the canonical form",
             "connections of one scenario have pairwise distinct 4-tuples",
         ],
-        parent_stage: None,
+        parent_stage: Some(sanitizers),
     }
 }
